@@ -98,6 +98,48 @@ def check_roundtrip(case):
     return fails, (st, len(x), n, rule, app, tuple(round(v, 9) for v in means), moved)
 
 
+MATCH_HIST_OPS = [("recreate", "linfix", 2), ("recreate", "pconst", 3), ("recreate", "expada", 2), ("restore_original",),
+                  ("truncate_by_value", "absA"), ("truncate_by_value", "absB"), ("truncate_by_index", 1, None), ("append", True),
+                  ("repeat", 2), ("shift_x", 1.0), ("scale_y", 2.0), ("normalize_x", 0.0, 1.0), ("interpolate_n", 7, "linear")]
+
+
+@kind("match-in-state")
+def check_match_in_state(case):
+    """Weaver.integral_match in ANY state is the matching function applied to the current working series
+    and the current reference (whose correctness C01 / C03 decide): same bytes, and the interval means of
+    the result equal the reference averages between the matched reference points"""
+    import copy
+    import warnings
+    from checks import weaverops as WO
+    from mc.refmodel import match as RM
+    from traffic_weaver.match import integral_matching_reference_stretch
+    r = WO.Runner(WO.INITS[case["init"]])
+    for op in case["ops"]:
+        op = tuple(op)
+        if r.concretize(op) is None:
+            return [], ("skipped",)
+        r.apply(op)
+    gx, gy = r.wv.get()
+    rx, ry = r.wv.get_reference()
+    sel = RM.fixed_selection(WO.fl(gx), WO.fl(rx), "search", "closest")
+    if sel[0] != "ok":
+        return [], ("not-admissible",)
+    fails = []
+    key = {"path": "weaver-history", "rule": case["rule"]}
+    with warnings.catch_warnings():
+        warnings.simplefilter("ignore")
+        try:
+            z = copy.deepcopy(r.wv).integral_match(target_function_integral_method=case["rule"]).get()[1]
+        except Exception as e:  # noqa
+            return [fail("raised", {"exception": repr(e)}, dict(key, exc=type(e).__name__))], None
+        ref = integral_matching_reference_stretch(np.array(gx, dtype=float), np.array(gy, dtype=float), np.array(rx, dtype=float),
+                                                  np.array(ry, dtype=float), target_function_integral_method=case["rule"])
+    z = np.asarray(z, dtype=float)
+    if z.shape != ref.shape or z.tobytes() != np.asarray(ref, dtype=float).tobytes():
+        fails.append(fail("weaver-match-differs-from-function-on-current-state", {"observed": z, "function": ref, "fixed": sel[1]}, key))
+    return fails, (case["init"], tuple(tuple(o) for o in case["ops"]), case["rule"])
+
+
 def _series(quick, seed):
     out = []
     for g in A.grids(8, 2):
@@ -172,5 +214,12 @@ def harnesses(tier, seed):
         if d == "mobile_video" and st == "expada":
             ctx.sample({"dataset": "sandvine_" + d, "strategy": st})
 
-    return [{"name": "small-series", "body": body}, {"name": "structured-long", "body": long_body},
+    def match_hist_body(ctx):
+        ii = ctx.choose([0, 1, 3], "init")
+        ops = [ctx.choose(MATCH_HIST_OPS, "op%d" % d) for d in range(3 if quick else 4)]
+        for rule in ("trapezoid", "rectangle"):
+            judge(ctx, check_match_in_state, {"init": ii, "ops": [list(o) for o in ops], "rule": rule}, calls=2,
+                  nontrivial=lambda sg: sg[0] not in ("skipped", "not-admissible"))
+
+    return [{"name": "match-in-every-state", "body": match_hist_body}, {"name": "small-series", "body": body}, {"name": "structured-long", "body": long_body},
             {"name": "bundled-datasets", "body": data_body}]
